@@ -115,7 +115,7 @@ def natural_case(rng):
          'oscillating': -rng.uniform(0.3, 1.3), 'slow': rng.uniform(0.9, 0.999)}[regime]
     b = rng.uniform(-0.9, 0.9)
     c = rng.uniform(-2, 2)
-    script = f'Y = {a!r} * Z + {c!r} + 0.5 * Y[-1]\nZ = {b!r} * Y + X'
+    script = f'Y = {a:.12f} * Z + {c:.12f} + 0.5 * Y[-1]\nZ = {b:.12f} * Y + X'
     Model = fsic.build_model(fsic.parse_model(script))
     n = 4
 
@@ -271,13 +271,22 @@ def check_cases(ctx, rep, cases, label):
                 rep.disagree('solve_t: model != impl', case, a, b)
 
 
-def run(ctx, rep):
-    L = 2 if ctx.tier == 'quick' else 3
-    n_random = (3000 if ctx.tier == 'quick' else 60000) * ctx.scale
-    n_natural = (300 if ctx.tier == 'quick' else 4000) * ctx.scale
-    cases = list(core_cases(L))
-    check_cases(ctx, rep, cases, 'core')
-    rep.exhaustive = False
+def _work(ctx, rep):
+    """One worker's share (ctx.part of ctx.parts): a slice of the exhaustive core + its own random streams."""
+    L = 2 if ctx.tier == 'quick' else 4
+    n_random = (3000 if ctx.tier == 'quick' else 800000) * ctx.scale // ctx.parts
+    n_natural = (300 if ctx.tier == 'quick' else 40000) * ctx.scale // ctx.parts
+    buf, ncore = [], 0
+    for i, case in enumerate(core_cases(L)):
+        if i % ctx.parts != ctx.part:
+            continue
+        buf.append(case)
+        ncore += 1
+        if len(buf) >= 5000:
+            check_cases(ctx, rep, buf, 'core')
+            buf = []
+    if buf:
+        check_cases(ctx, rep, buf, 'core')
     rng = ctx.sub_rng('random')
     for chunk in range(0, n_random, 5000):
         check_cases(ctx, rep, [random_case(rng) for _ in range(min(5000, n_random - chunk))], 'random')
@@ -296,10 +305,14 @@ def run(ctx, rep):
     if not ctx.oracle_only:
         outs = ctx.drive([sc.line('solve_t', {k: v for k, v in c.items() if k not in ('source', 'regime')}) for c, *_ in nat])
         for (case, impl, *_), a in zip(nat, outs):
-            # the scripted replay holds Y,Z only; X and lagged reads are not part of it: compare everything
             if a != impl:
                 rep.disagree('solve_t (parser-built system, recorded vectors): model != impl', case, a, impl)
-    rep.notes.append(f'core lattice L={L}: {len(cases)} cases; random {n_random}; natural systems {n_natural}')
+    rep.notes.append(f'part {ctx.part}/{ctx.parts}: core lattice L={L}: {ncore} cases; random {n_random}; natural systems {n_natural}')
+
+
+def run(ctx, rep):
+    import framework
+    framework.parallel(_work, ctx, rep, parts=(1 if ctx.tier == 'quick' else ctx.workers))
 
 
 def oracle_natural(case, tag, final, calls, rec, rep):
